@@ -49,6 +49,7 @@ type vcall struct {
 	exact    string // text of the value as seen (element order kept)
 	canon    string // canonical text (collections as multisets, stamps saturated)
 	top      bool   // expected calls only: the call for the top-level position
+	where    string // expected calls only: kind of position and lookup (histogram)
 	rejected bool
 }
 
@@ -289,10 +290,12 @@ func typeClass(t reflect.Type) string {
 	return "other"
 }
 
-// buildTwin builds the twin of the current universe (C01 only; every catalogue universe, a third of the random
-// ones).  Everything is a function of the `type` line, so a replay of the case builds the same twin.
+// buildTwin builds the twins of the current universe (C01 only; every catalogue universe gets four with different
+// validators, a third of the random ones get one).  Everything is a function of the `type` line, and an op line
+// picks its twin by its own text (pickTwin), so a replay of the case — or of the failing op alone — runs the same
+// validators.
 func (x *Runner) buildTwin() {
-	x.tw = nil
+	x.tw, x.tws = nil, nil
 	x.twLastDec = ""
 	if x.Prop != "C01" || x.Env == nil || x.Env.Err != nil || x.Env.SOM != nil {
 		return
@@ -302,29 +305,66 @@ func (x *Runner) buildTwin() {
 		return
 	}
 	h := fnv64(x.typeLine)
+	n := 1
+	switch f[1] {
+	case "cat":
+		n = 4
+	case "gen":
+		if h%3 != 0 || len(f) != 4 {
+			return
+		}
+	default:
+		return
+	}
+	for k := 0; k < n; k++ {
+		if tw := x.buildOneTwin(f, h, k); tw != nil {
+			x.tws = append(x.tws, tw)
+		}
+	}
+	if len(x.tws) > 0 {
+		x.R.Count("validators:universes")
+		x.R.Count("validators:universes:" + f[1])
+	}
+}
+
+// pickTwin selects the twin an op line runs on.
+func (x *Runner) pickTwin(op string) *twin {
+	x.tw = nil
+	if len(x.tws) > 0 {
+		x.tw = x.tws[fnv64(op)%uint64(len(x.tws))]
+	}
+
+	return x.tw
+}
+
+func (x *Runner) buildOneTwin(f []string, h uint64, k int) *twin {
 	var e2 *Env
 	switch f[1] {
 	case "cat":
 		e2 = CatalogueEnv(f[2])
 	case "gen":
-		if h%3 != 0 || len(f) != 4 {
-			return
-		}
 		seed, err1 := strconv.ParseUint(f[2], 10, 64)
 		depth, err2 := strconv.Atoi(f[3])
 		if err1 != nil || err2 != nil {
-			return
+			return nil
 		}
 		e2 = GenEnv(hx.NewRng(seed), depth)
 	}
 	if e2 == nil || e2.Err != nil || e2.Top != x.Env.Top || e2.Schema.SExp() != x.Env.Schema.SExp() {
 		x.R.Count("validators:twin-not-identical")
 
-		return
+		return nil
 	}
 	tw := &twin{env: e2, regs: map[reflect.Type]*vreg{}}
-	rng := hx.NewRng(h ^ 0x76616c6964617465)
+	rng := hx.NewRng(h ^ 0x76616c6964617465 ^ (uint64(k) * 0x9e3779b97f4a7c15))
 	cands := positionTypes(e2.Schema)
+	if rng.Bool() {
+		// inner positions first (the list starts with the top type)
+		for i := len(cands) - 1; i > 0; i-- {
+			j := rng.Intn(i + 1)
+			cands[i], cands[j] = cands[j], cands[i]
+		}
+	}
 	maxRegs := 6
 	if f[1] == "cat" {
 		maxRegs = 9
@@ -383,16 +423,16 @@ func (x *Runner) buildTwin() {
 		pick(cands[rng.Intn(len(cands))], true)
 	}
 	if len(tw.order) == 0 {
-		return
+		return nil
 	}
 	var d []string
 	for _, r := range tw.order {
 		d = append(d, fmt.Sprintf("%s[%s mod=%d]", clip(r.t.String(), 80), r.variant, r.mod))
 	}
 	tw.desc = strings.Join(d, ", ")
-	x.tw = tw
-	x.R.Count("validators:universes")
-	x.R.Count("validators:universes:" + f[1])
+	x.R.Count("validators:twins")
+
+	return tw
 }
 
 func (tw *twin) register(x *Runner, rng *hx.Rng, t reflect.Type, valid bool, variant string) {
@@ -445,9 +485,14 @@ type expect struct {
 const twinMaxNodes = 6000
 
 // expectCall: the documented lookup.
-func (tw *twin) expectCall(t reflect.Type, v reflect.Value, top bool, ex *expect) {
+func (tw *twin) expectCall(t reflect.Type, v reflect.Value, where string, ex *expect) {
 	r, ok := tw.regs[t]
+	lookup := "direct"
 	if (!ok || !r.valid) && t.Kind() == reflect.Ptr {
+		lookup = "deref"
+		if ok {
+			lookup = "deref-behind-nil-fn"
+		}
 		t = t.Elem()
 		if v.IsNil() {
 			v = reflect.Value{}
@@ -464,7 +509,10 @@ func (tw *twin) expectCall(t reflect.Type, v reflect.Value, top bool, ex *expect
 
 		return
 	}
-	c := vcall{t: t, exact: vtext(v, false), canon: vtext(v, true), top: top}
+	if t.Kind() == reflect.Ptr {
+		lookup = "pointer-validator"
+	}
+	c := vcall{t: t, exact: vtext(v, false), canon: vtext(v, true), top: where == "top", where: where + ":" + lookup + ":" + typeClass(t)}
 	if r.rejects(c.canon) {
 		c.rejected = true
 		ex.rejected++
@@ -472,14 +520,14 @@ func (tw *twin) expectCall(t reflect.Type, v reflect.Value, top bool, ex *expect
 	ex.calls = append(ex.calls, c)
 }
 
-func (tw *twin) position(s *Schema, v reflect.Value, top bool, ex *expect) {
+func (tw *twin) position(s *Schema, v reflect.Value, where string, ex *expect) {
 	ex.nodes++
 	if ex.nodes > twinMaxNodes {
 		ex.tooBig = true
 
 		return
 	}
-	tw.expectCall(v.Type(), v, top, ex)
+	tw.expectCall(v.Type(), v, where, ex)
 	tw.descend(s, v, ex)
 }
 
@@ -500,21 +548,25 @@ func (tw *twin) descend(s *Schema, v reflect.Value, ex *expect) {
 				tw.descend(f.T, fv, ex)
 			case 'o':
 				if !fv.IsNil() {
-					tw.position(f.T, fv, false, ex)
+					tw.position(f.T, fv, "optional-field", ex)
 				}
 			default:
-				tw.position(f.T, fv, false, ex)
+				if v.Type().Field(f.Index).Anonymous {
+					tw.position(f.T, fv, "inlined-embedded", ex)
+				} else {
+					tw.position(f.T, fv, "field", ex)
+				}
 			}
 		}
 	case KSlice, KArray:
 		for i := 0; i < v.Len(); i++ {
-			tw.position(s.Elem, v.Index(i), false, ex)
+			tw.position(s.Elem, v.Index(i), "element", ex)
 		}
 	case KMap:
 		iter := v.MapRange()
 		for iter.Next() {
-			tw.position(s.Key, iter.Key(), false, ex)
-			tw.position(s.Elem, iter.Value(), false, ex)
+			tw.position(s.Key, iter.Key(), "map-key", ex)
+			tw.position(s.Elem, iter.Value(), "map-value", ex)
 		}
 	case KIface:
 		if v.IsNil() {
@@ -523,7 +575,7 @@ func (tw *twin) descend(s *Schema, v reflect.Value, ex *expect) {
 		cv := v.Elem()
 		for _, a := range s.Alts {
 			if a.GoType == cv.Type() {
-				tw.position(a.T, cv, false, ex)
+				tw.position(a.T, cv, "interface-alternative", ex)
 
 				return
 			}
@@ -542,7 +594,7 @@ func (tw *twin) expectEnc(s *Schema, v reflect.Value) *expect {
 
 		return ex
 	}
-	tw.position(s, v, true, ex)
+	tw.position(s, v, "top", ex)
 
 	return ex
 }
@@ -552,13 +604,13 @@ func (tw *twin) expectDec(s *Schema, v reflect.Value) *expect {
 	ex := &expect{}
 	if s.K == KPtr && s.Elem.K == KCustom {
 		// a pointer to a pointer to a Deserializable: Decode continues with the inner pointer
-		tw.position(s, v, true, ex)
+		tw.position(s, v, "top", ex)
 
 		return ex
 	}
 	pv := reflect.New(v.Type())
 	pv.Elem().Set(v)
-	tw.expectCall(pv.Type(), pv, true, ex)
+	tw.expectCall(pv.Type(), pv, "top", ex)
 	tw.descend(s, v, ex)
 
 	return ex
@@ -667,18 +719,18 @@ func anyRejected(calls []vcall) bool {
 
 // twinEnc runs after the plain API encoded v (bytes b, outcome out) with the given validation mode.
 func (x *Runner) twinEnc(v reflect.Value, validation bool, b []byte, out string) {
-	tw := x.tw
-	if tw == nil {
+	if len(x.tws) == 0 {
 		return
 	}
 	s := x.Env.Schema
+	op := "enc " + flagName(validation) + " " + ValText(s, v, TextOpts{})
+	tw := x.pickTwin(op)
 	ex := tw.expectEnc(s, v)
 	if ex.tooBig {
 		x.R.Count("validators:skipped-large")
 
 		return
 	}
-	op := "enc " + flagName(validation) + " " + ValText(s, v, TextOpts{})
 	x.R.Count("validators:enc-lines")
 	x.twN++
 	if !validation {
@@ -714,6 +766,9 @@ func (x *Runner) twinEnc(v reflect.Value, validation bool, b []byte, out string)
 		}
 		if out == "ok" && tout == "ok" {
 			x.R.Count("validators:enc-exact")
+			for _, c := range ex.calls {
+				x.R.Count("validators:enc-pos:" + c.where)
+			}
 			if d := bagDiff(callBag(calls, false, false), callBag(ex.calls, false, false), false); d != "" {
 				x.twinFail("validator-called", "encode-count", true, op, "validated Encode: %s", d)
 			}
@@ -771,11 +826,11 @@ func (x *Runner) twinEnc(v reflect.Value, validation bool, b []byte, out string)
 
 // twinDecLine runs after the plain API executed a `dec` line.
 func (x *Runner) twinDecLine(b []byte, validation bool, d reflect.Value, n int, out string) {
-	tw := x.tw
-	if tw == nil || len(b) > 1<<16 {
+	if len(x.tws) == 0 || len(b) > 1<<16 {
 		return
 	}
 	op := "dec " + flagName(validation) + " " + hexs(b)
+	tw := x.pickTwin(op)
 	if !validation {
 		x.R.Count("validators:off-checks")
 		td, tn, tout := tw.decode(b, false, false)
@@ -833,6 +888,11 @@ func (x *Runner) twinDecode(b []byte, op string, s *Schema, input reflect.Value,
 		}
 		if tout == "ok" {
 			x.R.Count("validators:dec-exact")
+			for _, c := range ex.calls {
+				if c.top {
+					x.R.Count("validators:dec-pos:" + c.where)
+				}
+			}
 			if d := bagDiff(callBag(calls, false, false), callBag(ex.calls, false, false), false); d != "" {
 				x.twinFail("validator-called", "decode-count", true, op, "validated Decode: %s", d)
 			}
